@@ -40,6 +40,12 @@ CHECKS = {
                   'presence patterns, queries, include/exclude sets and 1-2 step chains, on every path (one per feasible equality pattern) the '
                   'result items/order/data identity/globals/data_key, select_by exceptions, merge and immutability of browsers and inputs are decided.',
              design='DESIGN.md section 4 C17'),
+ 'C16': dict(technique='bounded-exhaustive symbolic execution of the real DepGraph/RList code (symrun, z3 decides fork feasibility): inductive step = one or two operations with solver-chosen arguments from every valid state of the bound, compared with a set model',
+             text='From EVERY representation state over <= 3 (4) nodes (symbolic edge matrix) every public operation with every argument choice is '
+                  'executed; representation invariant, nodes/dependencies/dependees/iteration/==/<=, independence of copies and inverses, '
+                  'topological sort, transitive reduction/closure and flatten (nested graphs incl. empty ones) are compared with the mathematical model. '
+                  'Containers hash by identity so each path is one concrete state: exhaustive within the bound, not beyond.',
+             design='DESIGN.md section 4 C16'),
 }
 
 NOT_YET = {}
